@@ -7,7 +7,7 @@ from .common import BASES, FUNCS, PARAMS, basename, uniquify, rnd_args
 
 ID = "C05"
 ALLOWED_AXIOMS = []
-PROPS_FILES = ["C05", "Reach", "Atomic"]     # Reach: invariants of every store reachable by API programs
+PROPS_FILES = ["C05", "Reach", "ReachAll", "Atomic"]     # Reach: invariants of every store reachable by API programs
 RULE = ("thorough tier additionally enumerates EXHAUSTIVELY all 7381 histories of length <= 4 over a fixed 9-op alphabet "
         "(3 inserts with clashing names, 2 removes, changeArg, changeDuration, setSegmentMarker, self-concatenation); "
         "random edit histories (length 1-25, thorough up to 40) over {insertSegment at any position incl. -1 with "
